@@ -161,7 +161,54 @@ def run_c17(ctx):
     ctx.assumptions.append("defaultValue rendering is not compared (not part of the statement)")
 
 
-RUNNERS = {"C13": run_c13, "C14": run_c14, "C16": run_c16, "C17": run_c17}
+PRINT_CFG = """SPECIFICATION PSpec
+CONSTANTS MaxLen = {n}
+  KnownDev = {known}
+INVARIANTS AllAccepted Emit
+CHECK_DEADLOCK FALSE
+"""
+
+
+def build_ggqlgen(ctx):
+    import subprocess
+    out = os.path.join(ctx.scratch, "ggqlgen")
+    p = subprocess.run(["go", "build", "-o", out, "./cmd/ggqlgen"], cwd=vlib.REPO, env=vlib.GOENV, stdout=subprocess.PIPE, stderr=subprocess.STDOUT, text=True)
+    if p.returncode != 0:
+        raise vlib.MachineryError("cannot build cmd/ggqlgen: " + p.stdout[-2000:])
+    return out
+
+
+def run_c15(ctx):
+    devs = known_devs()
+    n = 2 if ctx.tier == "quick" else 3
+    res = vlib.run_tlc(ctx, "MCPrint", PRINT_CFG.format(n=n, known=tlaset(sorted(devs))), timeout=3400, xss="64m")
+    vlib.require_clean(res, "MCPrint")
+    vecs = list(res.vecs)
+    # every accepted schema of the rule catalogue's valid variants goes through the round trip as well
+    r2 = vlib.run_tlc(ctx, "MCRules", RULES_CFG.format(known=tlaset(sorted(devs)), intro="FALSE"), timeout=3400, xss="64m")
+    vlib.require_clean(r2, "MCRules")
+    for v in r2.vecs:
+        if v["hist"][0]["ok"] and v["hist"][0].get("okK", True):   # accepted by the specification and (known deviations) by ggql
+            v["tag"] = "bases"
+            vecs.append(v)
+    vp = os.path.join(ctx.scratch, "print.json")
+    with open(vp, "w") as fh:
+        json.dump(vecs, fh)
+    gen = build_ggqlgen(ctx)
+    rep = vlib.run_harness_json(ctx, "schema", ["roundtrip", "-vectors", vp, "-ggqlgen", gen], timeout=3400)
+    absorb(ctx, rep, "roundtrip", None, devs)
+    ctx.exhaustive = True
+    ctx.rule = ("every string of up to %d tokens over {letter, quote, backslash, newline, e-acute, triple quote, backslash-u text, interior space, 4-byte rune} "
+                "as description at each of 12 description sites and as string default at 4 default sites (descriptions restricted to strings that are "
+                "stored unchanged: trimmed lines, no blank lines), numeric/boolean/enum/null defaults incl. 2^53, 1.5, -0.5, 1e300, 1e-50, nested list and "
+                "object defaults, and the valid schemas of MCRules: load, print the root (whole root and type by type), load the printed text into a fresh "
+                "root, compare the schemas read back, print again and compare the texts; every 7th case also through ggqlgen -w and -e built from /repo. "
+                "non-trivial = case with a special string or default" % n)
+    ctx.assumptions += ["texts are compared with ggql.Sort = true (as ggqlgen sets it): object valued defaults are Go maps and their key order is otherwise unspecified",
+                        "the structural half is carried by C16/C14 (Loader.tla); MCPrint.tla only enumerates the textual cases and states the expected outcome (accepted, same canonical schema)"]
+
+
+RUNNERS = {"C15": run_c15, "C13": run_c13, "C14": run_c14, "C16": run_c16, "C17": run_c17}
 
 
 def run(ctx):
